@@ -76,6 +76,7 @@ type Contract struct {
 	MaxPaths    int
 	MergeExits  bool
 	GuardsOn    bool
+	LoopInvs    []*Clause
 	Writes      []string // slice parameters whose elements the function writes
 	SafetyProps []string
 	Uses        []string // quantified callee clauses to assume at call sites: "callee.clause" or "callee.*"
@@ -531,6 +532,15 @@ func (cf *ContractFile) parseOne(path string) error {
 				c.Uses = append(c.Uses, strings.Fields(strings.ReplaceAll(rest, ",", " "))...)
 			case "safetyprop":
 				c.SafetyProps = strings.Fields(strings.ReplaceAll(rest, ",", " "))
+			case "loopinv":
+				cl, err := parseClause(rest, it.line)
+				if err != nil {
+					return fail(err)
+				}
+				if cl.Name == "" {
+					cl.Name = fmt.Sprintf("loopinv.%d", len(c.LoopInvs)+1)
+				}
+				c.LoopInvs = append(c.LoopInvs, cl)
 			case "writes":
 				c.Writes = append(c.Writes, strings.Fields(strings.ReplaceAll(rest, ",", " "))...)
 			case "guards":
@@ -733,6 +743,23 @@ func (cl *Clause) quantified() bool {
 func (c *Contract) usesClause(callee, clause string) bool {
 	for _, u := range c.Uses {
 		if u == callee+"."+clause || u == callee+".*" || u == "*" {
+			return true
+		}
+	}
+	return false
+}
+
+// modifiesGhost: may the function change ghost global `name`?
+// No modifies clause at all means "anything".
+func (c *Contract) modifiesGhost(name string) bool {
+	if c.Pure {
+		return false
+	}
+	if len(c.Modifies) == 0 && len(c.Effects) == 0 {
+		return true
+	}
+	for _, m := range c.Modifies {
+		if m == "*" || m == "ghost.*" || m == "ghost."+name {
 			return true
 		}
 	}
